@@ -19,14 +19,19 @@ impl EventLog { pub fn append(&self, e: &Event) -> Result<(), String> { self.fra
 pub struct Sender;
 impl Sender { pub fn send(&self, _e: Event) -> Result<usize, ()> { Ok(0) } }
 pub struct TailScan { pub events: Vec<Event>, pub complete: bool }
-pub struct Parsed { pub events: Vec<Event> }
+pub struct Parsed { pub events: Vec<Event>, pub complete: bool }
+// cache mode 2: the back-scan of the checkpoint sidecar is a window of the newest CP_WINDOW frames (what a sidecar longer than the scan limits looks like)
+thread_local! { pub static CP_WINDOW: std::cell::Cell<usize> = std::cell::Cell::new(usize::MAX); }
 pub struct File;
 impl File { pub fn open(_p: &PathBuf) -> io::Result<File> { Ok(File) } }
 pub enum ParseMode { Event }
 thread_local! { static SIDECAR: RefCell<Vec<Event>> = RefCell::new(Vec::new()); }
 // newest first, as the real scan_sidecar_backwards returns them (proved in unit c04_scan)
 pub fn scan_sidecar_backwards(_f: &mut File, id: &str, _n: usize, _b: usize, _m: ParseMode, _x: Option<u64>) -> io::Result<Parsed> {
-    Ok(Parsed { events: SIDECAR.with(|s| s.borrow().iter().rev().filter(|e| e.session_id == id && matches!(e.kind, EventKind::ContinuityCompactionCheckpointCreated { .. })).cloned().collect()) })
+    let all: Vec<Event> = SIDECAR.with(|s| s.borrow().iter().rev().filter(|e| e.session_id == id && matches!(e.kind, EventKind::ContinuityCompactionCheckpointCreated { .. })).cloned().collect());
+    let w = CP_WINDOW.with(|c| c.get()).min(_n);
+    let complete = all.len() <= w;
+    Ok(Parsed { events: all.into_iter().take(w).collect(), complete })
 }
 // mode 0: every cache absent (truth-log paths); mode 1: caches present and faithful to the appended frames
 pub struct ContinuityWindow { pub events: Vec<Event>, pub from_seq: u64, pub from_message_id: Option<String> }
